@@ -309,6 +309,7 @@ def _o_get_stats(call):
 
 
 def install():
+    probe.enable_argflip({"wmom": lambda a, k: not isinstance(k.get("inputmean"), np.ndarray), "wmedian": None, "sigma_clip": None}, every=4)
     probe.enable_recall("C18.recall", every=5)
     m = "esutil.stat.util:"
     probe.instrument(m + "wmom", [_o_wmom], also=["esutil.stat"])
